@@ -39,6 +39,20 @@ func TestC11Proc(t *testing.T) {
 			}
 		}
 	}
+	// two plugins at once whose sync writers are the same (closable) writers of the application: the second keeps
+	// printing after the first was killed
+	nPat := len(cells)
+	for _, proto := range []string{"netrpc", "grpc"} {
+		for _, order := range [][]string{{"kill:0", "print:c@1", "kill:1"}, {"kill:1", "print:c@0", "kill:0"}} {
+			ops := append([]string{"new", "start", "client", "dispense", "print:a", "new", "start", "client", "dispense", "print:b@1"}, order...)
+			cells = append(cells, Cell{
+				Name:   fmt.Sprintf("%s two plugins sharing the application's (closable) sync writers, then %s", proto, strings.Join(order, ",")),
+				Plugin: PluginConf{CookieKey: cookieKey, CookieValue: cookieVal, Legacy: 1, LegacyProto: proto, GRPCServer: true, TLS: "none"},
+				Host:   HostConf{Allowed: []string{"netrpc", "grpc"}, TLS: "none", Launch: "cmd", Legacy: 1, SkipHostEnv: true},
+				Ops:    ops,
+			})
+		}
+	}
 	results := runCells(base, cells)
 	out := &enumResult{Exhaustive: true, Outcomes: map[string]int{}}
 	for i, r := range results {
@@ -54,6 +68,18 @@ func TestC11Proc(t *testing.T) {
 		}
 		if op, e := firstErr(r); e != "" {
 			bad("session failed at %s: %s", op, e)
+			continue
+		}
+		if r.SyncClosed {
+			bad("go-plugin closed a writer that belongs to the application (SyncStdout / SyncStderr / Stderr)")
+		}
+		if i >= nPat {
+			for _, m := range []string{"a", "b", "c"} {
+				if !strings.Contains(r.SyncOut, "OUT-"+m) || !strings.Contains(r.SyncErr, "ERR-"+m) {
+					bad("output %q of a live plugin did not reach the sync writers (stdout has it: %v, stderr has it: %v)", m, strings.Contains(r.SyncOut, "OUT-"+m), strings.Contains(r.SyncErr, "ERR-"+m))
+				}
+			}
+			out.Outcomes["shared-writers"]++
 			continue
 		}
 		wantOut, wantErr, seq := "", "", 0
